@@ -15,6 +15,7 @@ import (
 	crand "crypto/rand"
 	"crypto/rsa"
 	"crypto/x509"
+	"crypto/x509/pkix"
 	"encoding/asn1"
 	"encoding/json"
 	"encoding/pem"
@@ -22,9 +23,14 @@ import (
 	"fmt"
 	"math/big"
 	"os"
+	"path/filepath"
 	"strings"
+	"time"
 
 	"github.com/wokdav/gopki/generator/cert"
+	"github.com/wokdav/gopki/generator/db/filesystem"
+
+	"verifharness/internal/simfs"
 
 	"verifharness/internal/ecv"
 	"verifharness/internal/project"
@@ -235,6 +241,7 @@ func cmdKeys(args []string) int {
 	out := fs.String("out", "obs.ndjson", "")
 	statsOut := fs.String("stats", "stats.json", "")
 	rsaSizes := fs.String("rsa", "1024,2048", "")
+	fixtures := fs.String("fixtures", "", "directory with rsa4096.pem / rsa8192.pem (stored keys too costly to generate)")
 	seed := fs.Uint64("seed", 1, "")
 	fs.Parse(args)
 	w, _ := util.NewNdjsonWriter(*out)
@@ -447,7 +454,94 @@ func cmdKeys(args []string) int {
 		}
 		emit(o)
 	}
-	_ = big.NewInt
+	// ---- the same through the filesystem database: an artifact file next to its configuration, of several sizes (a padding extension in
+	//      the certificate: 0, 6,000, 20,000, 70,000 octets; keys: the small one, the stored RSA fixtures), with and without hash line,
+	//      certificate + key and certificate + request (key and request in one file: what becomes of the request is not stated)
+	dbKeys := []struct {
+		name string
+		k    any
+	}{{"small", k}}
+	if *fixtures != "" {
+		for _, fn := range []string{"rsa4096.pem", "rsa8192.pem"} {
+			if b, err := os.ReadFile(filepath.Join(*fixtures, fn)); err == nil {
+				if pf, err := cert.ReadPem(b); err == nil && pf.PrivateKey != nil {
+					dbKeys = append(dbKeys, struct {
+						name string
+						k    any
+					}{fn, pf.PrivateKey})
+				}
+			}
+		}
+	}
+	for _, pad := range []int{0, 6000, 20000, 70000} {
+		fk := foreignKey()
+		tmpl := &x509.Certificate{SerialNumber: big.NewInt(77), Subject: pkix.Name{CommonName: "pem through the database"},
+			NotBefore: time.Date(2020, 1, 1, 0, 0, 0, 0, time.UTC), NotAfter: time.Date(2045, 1, 1, 0, 0, 0, 0, time.UTC)}
+		if pad > 0 {
+			tmpl.ExtraExtensions = []pkix.Extension{{Id: asn1.ObjectIdentifier{1, 3, 6, 1, 4, 1, 99999, 78}, Value: bytes.Repeat([]byte{0x5a}, pad)}}
+		}
+		der, err := x509.CreateCertificate(crand.Reader, tmpl, tmpl, &fk.PublicKey, fk)
+		if err != nil {
+			return 2
+		}
+		cb := &pem.Block{Type: "CERTIFICATE", Bytes: der}
+		for _, dk := range dbKeys {
+			for m := 0; m < 4; m++ {
+				o := &keyObs{What: "pem", HasHash: m&1 != 0, HasCert: true, HasKey: m&2 == 0, HasCsr: m&2 != 0,
+					Class: fmt.Sprintf("through the database: padding %d, key %s, mask %d", pad, dk.name, m)}
+				if o.HasCsr && dk.name != "small" {
+					continue
+				}
+				var bb bytes.Buffer
+				if o.HasHash {
+					bb.WriteString("#HASH:AAAAAAAAAAAAAAAAAAAAAAAAAAA=\n")
+				}
+				pem.Encode(&bb, cb)
+				if o.HasKey {
+					cert.WritePrivateKeyToPem(dk.k, &bb)
+				} else {
+					pem.Encode(&bb, rblk)
+				}
+				pan, msg := util.Guard(func() {
+					sf := simfs.New()
+					sf.Put("x.yaml", []byte("version: 1\nsubject: \"CN=pem through the database\"\n"))
+					sf.Put("x.pem", bb.Bytes())
+					d := filesystem.NewFilesystemDatabase(sf)
+					if err := d.Open(); err != nil {
+						o.Err = err.Error()
+						return
+					}
+					art, err := d.GetBuildArtifact("x")
+					if err != nil || art == nil {
+						o.Err = fmt.Sprint("GetBuildArtifact: ", err)
+						return
+					}
+					o.GotCert, o.GotKey, o.GotCsr = art.Certificate != nil, art.PrivateKey != nil, art.Request != nil
+					if art.Certificate != nil {
+						var back bytes.Buffer
+						if art.Certificate.WritePem(&back) == nil {
+							b2, _ := pem.Decode(back.Bytes())
+							o.CertSame = b2 != nil && bytes.Equal(b2.Bytes, cb.Bytes)
+						}
+					}
+					if art.PrivateKey != nil {
+						o.KeySame = sameKey(dk.k, art.PrivateKey)
+					}
+					if art.Request != nil {
+						var back bytes.Buffer
+						if art.Request.WritePem(&back) == nil {
+							b2, _ := pem.Decode(back.Bytes())
+							o.CsrSame = b2 != nil && bytes.Equal(b2.Bytes, rblk.Bytes)
+						}
+					}
+				})
+				if pan {
+					o.Panic, o.PanicMsg = true, msg
+				}
+				emit(o)
+			}
+		}
+	}
 	w.Close()
 	sb, _ := json.Marshal(map[string]any{"evaluations": id, "by_kind": counts})
 	os.WriteFile(*statsOut, sb, 0644)
